@@ -331,3 +331,42 @@ def tag(case, obs):
             kk = ('converted' if r['out'][1] != r['tree'] else 'unchanged') if r['out'][0] == 'ok' else r['out'][1]
             k[kk] = k.get(kk, 0) + 1
     return ' '.join('%s=%d' % kv for kv in sorted(k.items()))
+
+
+MANIFEST = {
+    'technique': ('Lean 4 theorems by induction over one expression type with two semantics (plain arithmetic / physical '
+                  'quantity) over an arbitrary ordered field + differential correspondence of the executable model'),
+    'text': ('Proved in Lean for every registry, variable environment, expression (no bound on size or depth), target or '
+             'none, and every valuation of variables and derivatives (lean/Cellml/Props/C05.lean, 62 theorems; helpers in '
+             'Expr/Semantics.lean, Expr/ConvertLemmas.lean; standard axioms only). FULL STRENGTH: maybeConv_spec / '
+             'maybeConv_value (what maybe_convert_expr returns; it preserves magnitude x SI scale and the dimension; '
+             'UnitConversionError iff dimensions differ); convert_target (with a target the reported unit IS the target; '
+             'relations, functions, And/Or/Not, numbers accept only dimensionless); (a) convert_value / convert_cond / '
+             'convert_preserves: the result read as plain numbers in the reported unit is the physical quantity the '
+             'original denotes, a converted condition has the truth value of the physical comparison - all operators '
+             '(+, *, ** with the exponent evaluated by float(), abs, functions, Max/Min, Piecewise, relations, And/Or/Not, '
+             'derivatives, numbers); (c) convert_identity: was_converted false <=> same object returned, and then the '
+             'expression is unchanged (after the repair 9bfe738; pre-fix branch kept with its proved counterexample '
+             'mulToday_not_identical); convert_ok_valid / convert_rejects: a successful conversion certifies that the '
+             'expression denotes a physical quantity, so every dimensionally invalid expression (clash anywhere inside '
+             'it, non-dimensionless function or exponent argument, unreachable target) raises; convert_error_class: only '
+             'the five documented UnitError classes, pint UndefinedUnitError for unknown unit names, or the two '
+             'unsupported situations. PARTIAL: (b) convert_strict_partial - strict inference (traverse) of the result '
+             'succeeds with an is_equivalent unit or stops with a Python arithmetic exception on magnitudes, never a '
+             'UnitError - for the fragment strictFrag (everything with a unit except oo/nan, exponents = products of '
+             'numeric leaves) and units in a class on which factor one implies is_equivalent (instance dimClass: no '
+             'dimensionless root unit, registry with distinct base dimensions - checked by decide for the built-in '
+             'registry); for radian clause (b) is false in cellmlmanip (radian_not_strict, same root cause as the known '
+             'finding of C07). floor/ceiling have no scale-independent meaning: excluded from (a), proved counterexample '
+             'floor_value_changes (known finding, pinned by the repo tests). The model is tied to units.py by the seeded '
+             'correspondence: random unit families and expressions through convert_expression_recursively, comparing '
+             'outcome class, result tree, object identity, strict inference of the result and the value at sample '
+             'points; an independent physical-value oracle searches for failing inputs.'),
+    'note': ('Trusted: Lean kernel; propext, Classical.choice, Quot.sound; the correspondence harness; pint 0.18 and SymPy '
+             'are modelled, not verified. The semantic parameters are HYPOTHESES of the theorems (fields of Sem.Interp), '
+             'not axioms: phi (meaning of a scale) positive, multiplicative, invariant under equivalence; pw (rational '
+             'power) covariant under positive rescaling, pw x n = x^n for integers; exp/log/sin... and Max/Min '
+             'uninterpreted. Intended instance: the reals with real powers; a (degenerate) instance over Rat is exhibited '
+             '(Sem.ratInterp). A Piecewise with no applicable piece is given the value 0 on both sides (SymPy: nan, '
+             'absorbing under the factor). Floating-point rounding and the 1e-9 tolerance are outside the exact model.'),
+}
